@@ -61,6 +61,37 @@ def validate_traces(run, module, cfg, events, chunks=None, timeout=1500):
     return sorted(out)
 
 
+def same_obs(a, b, keys):
+    """a discrepancy reproduces when the fresh-process observation is the same (a crash reproduces as a crash)"""
+    if a.get("crash") or b.get("crash"):
+        return bool(a.get("crash")) and bool(b.get("crash"))
+    if ("panic" in a) or ("panic" in b):
+        return ("panic" in a) and ("panic" in b)
+    return all(json.dumps(a.get(k), sort_keys=True) == json.dumps(b.get(k), sort_keys=True) for k in keys)
+
+
+def confirm_case(driver, family, c, o, keys, by_id=None):
+    """Re-run a discrepant case in a fresh process. Returns the replayable case if it reproduces, else None.
+    A process death may be caused by a goroutine left behind by an earlier case of the same worker: then the
+    window of preceding cases is replayed together and becomes the replay unit."""
+    again = core.run_driver(driver, family, [dict(c)], nproc=1)[str(c["id"])]
+    if same_obs(again, o, keys):
+        return c
+    if o.get("crash") and by_id is not None:
+        window = [dict(by_id[i]) for i in o.get("prev", []) if i in by_id] + [dict(c)]
+        res = core.run_driver(driver, family, [dict(w) for w in window], nproc=1)
+        if any(r.get("crash") for r in res.values()):
+            return {"id": str(c["id"]), "window": window}
+    return None
+
+
+def run_window(driver, family, case):
+    """replay helper: a case is either a single case or {'window': [...]}; returns list of (case, obs)"""
+    cases = case["window"] if "window" in case else [case]
+    res = core.run_driver(driver, family, [dict(w) for w in cases], nproc=1)
+    return [(w, res[str(w["id"])]) for w in cases]
+
+
 def canon(v):
     """canonical JSON text of a spec value (set elements sorted)"""
     if isinstance(v, dict):
@@ -197,3 +228,131 @@ def replay_expr(run, body):
 
 
 REPLAYERS["expr"] = replay_expr
+
+
+# =============================================================== shared: Datalog engine traces
+
+def emb_of(run, i):
+    return run.seed * 7919 + i * 31 + 1
+
+
+def dl_events(run, driver, join_cases, run_cases):
+    """Execute join / run cases on the real engine and return trace events (case + observation)."""
+    events, src = [], []
+    if join_cases:
+        res = core.run_driver(driver, "join", join_cases)
+        for c in join_cases:
+            o = res[c["id"]]
+            events.append({"kind": "join", "body": c["body"], "facts": c["facts"], "k": c["k"],
+                           "obs": o if "rows" in o else {"rows": [[-999]], "n": -1}})
+            src.append(("join", c, o))
+    if run_cases:
+        res = core.run_driver(driver, "run", run_cases, per_case_timeout=60)
+        for c in run_cases:
+            o = res[c["id"]]
+            ok = "res" in o
+            events.append({"kind": "run", "facts": c["facts"], "rules": c["rules"], "mf": c["mf"], "mi": c["mi"],
+                           "queries": c.get("queries", []),
+                           "obs": {"res": o["res"], "facts": o["facts"], "qres": o["qres"]} if ok else
+                                  {"res": "crash", "facts": [], "qres": []}})
+            src.append(("run", c, o))
+    return events, src
+
+
+def atom_text(a):
+    return "p%d(%s)" % (a[0], ",".join(("c%d" % t) if t >= 0 else "$v%d" % -t for t in a[1:]))
+
+
+def rule_text(r):
+    g = ", ".join("%s %s %s" % (("c%d" % x["l"]) if x["l"] >= 0 else "$v%d" % -x["l"], x["o"],
+                                 ("c%d" % x["r"]) if x["r"] >= 0 else "$v%d" % -x["r"]) if x["o"] not in "TFE" else x["o"]
+                  for x in r.get("g", []))
+    return "%s <- %s%s" % (atom_text(r["h"]), ", ".join(atom_text(a) for a in r["b"]), (" | " + g) if g else "")
+
+
+def dl_text(kind, c):
+    if kind == "join":
+        return "join body=[%s] facts=[%s]" % (", ".join(atom_text(a) for a in c["body"]), ", ".join(atom_text(a) for a in c["facts"]))
+    return "run facts=[%s] rules=[%s] maxFacts=%s maxIter=%s" % (
+        ", ".join(atom_text(a) for a in c["facts"]), "; ".join(rule_text(r) for r in c["rules"]), c["mf"], c["mi"])
+
+
+def dl_report(run, driver, kind, c, o, why, by_id=None):
+    sig = {"kind": kind, "case": dl_text(kind, c)}
+    rc = confirm_case(driver, kind, c, o, ("rows", "n", "res", "facts", "qres"), by_id)
+    obs = json.dumps({k: v for k, v in o.items() if k in ("rows", "n", "res", "facts", "qres", "panic", "crash", "stderr")})[:500]
+    if "window" in (rc or {}):
+        sig["case"] = "process death within a window of %d cases ending at: %s" % (len(rc["window"]), sig["case"])
+    run.report(sig, rc, kind, "%s: %s -> observed %s" % (why, sig["case"], obs), (lambda: rc is not None))
+
+
+def validate_dl(run, driver, join_cases, run_cases, label):
+    events, src = dl_events(run, driver, join_cases, run_cases)
+    bad = validate_traces(run, "TraceDatalog", "TraceDatalog", events)
+    by_id = {str(c["id"]): c for c in join_cases + run_cases}
+    for b in bad[:40]:
+        kind, c, o = src[b]
+        dl_report(run, driver, kind, c, o, label + " event rejected by TraceDatalog", by_id)
+    return events
+
+
+@check("C05")
+def c05(run):
+    thorough = run.tier == "thorough"
+    run.rule = ("L1: DatalogEngine.tla (line-by-line transcription of combine/advanceIndexes) is model-checked against "
+                "Datalog!Matches for every catalogue body x every duplicate-free fact LIST (OdometerComplete/Sound/NoRepeat); "
+                "DatalogRun.tla (World.Run loop with limits) against Datalog!Lfp (RunCorrect). L2: every enumerated "
+                "(body, fact list) and (program, limits) instance is executed on the real engine under a seed-chosen embedding "
+                "of constants into all term types and validated by TLC (TraceDatalog). L3: seeded random programs "
+                "(arity 0-3, recursion, guards, duplicate facts) likewise. Non-trivial = distinct instances with a non-empty "
+                "body/rule list and at least one fact.")
+    run.assumptions = ["constants are embedded into concrete terms by a seed-chosen injective map; results are abstracted back by its inverse",
+                       "evaluation budget raised to 20 s so the 2 ms default never interferes"]
+    driver = core.build_driver(run.work)
+    r1 = core.tlc(run.work, "EngineMC_thorough" if thorough else "EngineMC_quick", "EngineMC_thorough" if thorough else "EngineMC_quick",
+                  timeout=3400)
+    run.add_tlc(r1, "L1 odometer vs Matches + export")
+    r2 = core.tlc(run.work, "DatalogRun", "DatalogRun_thorough" if thorough else "DatalogRun_quick", timeout=3400)
+    run.add_tlc(r2, "L1 Run loop vs Lfp + export")
+    joins = []
+    for i, c in enumerate(r1.cases):
+        joins.append({"id": "j%d" % i, "emb": emb_of(run, i), "body": c["body"], "facts": c["facts"], "k": c["k"], "exp": c["exp"]})
+        if c["body"] and c["facts"]:
+            run.count(("join", json.dumps(c["body"]), json.dumps(c["facts"])))
+        else:
+            run.count()
+    runs = []
+    for i, c in enumerate(r2.cases):
+        runs.append({"id": "r%d" % i, "emb": emb_of(run, i), "facts": c["facts"], "rules": c["rules"],
+                     "mf": c["mf"], "mi": c["mi"], "queries": []})
+        if c["rules"] and c["facts"]:
+            run.count(("run", json.dumps(c["facts"]), json.dumps(c["rules"]), c["mf"], c["mi"]))
+        else:
+            run.count()
+    validate_dl(run, driver, joins, runs, "L2")
+    run.sample({"L2_join": dl_text("join", joins[len(joins) // 2]), "expected_rows": joins[len(joins) // 2]["exp"]})
+    run.sample({"L2_run": dl_text("run", runs[len(runs) // 3]), "model_outcome": r2.cases[len(runs) // 3]["model"]})
+    # L3
+    g = gen_cases(run, driver, "run")
+    ev = validate_dl(run, driver, [], g, "L3")
+    for c, e in zip(g, ev):
+        run.count(("gen", c["id"], e["obs"]["res"]) if c["rules"] and c["facts"] else None)
+    run.sample({"L3_run": dl_text("run", g[3]), "observed": ev[3]["obs"]["res"], "facts": len(ev[3]["obs"]["facts"])})
+    run.extra["exhaustive"] = False
+
+
+def replay_dl(kind):
+    def f(run, body):
+        driver = core.build_driver(run.work)
+        c = dict(body["case"])
+        cs = c["window"] if "window" in c else [c]
+        events, src = dl_events(run, driver, cs if kind == "join" else [], cs if kind == "run" else [])
+        bad = validate_traces(run, "TraceDatalog", "TraceDatalog", events, chunks=1)
+        run.count("replay")
+        if bad:
+            run.report(body["sig"], c, kind, "replayed: " + dl_text(kind, cs[-1]))
+    return f
+
+
+REPLAYERS["join"] = replay_dl("join")
+REPLAYERS["run"] = replay_dl("run")
